@@ -36,8 +36,15 @@ def _coh(W, b):
 FORMULA_KEYS = ("Gxx_dev", "Gyy_dev", "Gxy_dev", "Hxy_dev", "coh_dev", "Gxx_error", "Gyy_error", "Gxy_error", "Hxy_mag_error", "coh_error")
 
 
-def ob_formulas(W, only):
+def ob_formulas(W, only, after_plot=None):
     b, fs, r = _setup(W)
+    if after_plot:
+        # the user plotted the result (with an error band of `sigma` deviations) before reading the error attributes: plot() is a reader
+        from . import C14
+        for a in ("Gxx_dev", "Gyy_dev", "Gxy_dev", "Hxy_dev", "coh_dev"):
+            getattr(r, a)
+        for which in after_plot:
+            C14.do_plot(W, r, which, {"errors": True, "sigma": 2})
     n = b["navg"]
     g2 = _coh(W, b)
     sq = W.sqrt
@@ -134,4 +141,7 @@ def obligations(tier):
     obs = [{"name": n, "fn": n, "params": {}, "timeout": to} for n in ("ob_auto", "ob_scaling", "ob_phase", "ob_coh1")]
     for k in FORMULA_KEYS + tuple("pair:" + p for p in ("Gxx", "Gyy", "Gxy", "Hxy", "coh")):
         obs.append({"name": "ob_formulas/" + k.replace(":", "_"), "fn": "ob_formulas", "params": {"only": [k]}, "timeout": to})
+    # the deviations still equal estimate x normalised error after the result was plotted with a 2-sigma error band
+    for p_, plots in (("Gxx", ["psd"]), ("Gyy", ["psd"]), ("Gxy", ["csd"]), ("Hxy", ["cf"]), ("coh", ["coh"])):
+        obs.append({"name": "ob_formulas/after-plot/pair_" + p_, "fn": "ob_formulas", "params": {"only": ["pair:" + p_], "after_plot": plots}, "timeout": to, "fork": True, "max_paths": 8})
     return obs
